@@ -102,4 +102,19 @@ META = {
         "note": "Trusted: Lean kernel; scheduler and coroutine models; virtual clock. The exactly-once claim across whole passes is stated per iteration (a finished coroutine is in no queue) rather than as a global placement invariant.",
         "design_ref": "DESIGN.md §4 C10",
     },
+    "C11": {
+        "text": "Counting invariant (running size = number of workers that have not returned from their loop) proved initial and preserved by every pool operation (C11_exact_partial), growth bounded by the maximum size (C11_bounded), an idle worker with an empty queue leaves at once (C11_idle_worker_exits) and a stop with nothing left succeeds immediately (C11_stop_prompt). Partial: a worker dropped by a cancel while parked never returns, so the count stays up - recorded known finding. Tie: generated submit/pass/advance/cancel/wait/max/stop histories on a real pool, running size and state compared after every operation.",
+        "note": "Trusted: Lean kernel; pool model (min_size 0, keep_alive 0, one thread); virtual clock. Known finding: [running-leak-after-parked-cancel].",
+        "design_ref": "DESIGN.md §4 C11",
+    },
+    "C12": {
+        "text": "Theorems: no operation moves the pool state backwards and only stop changes it (C12_monotone); submissions after stopping began are rejected with the queue untouched (C12_reject_after_stop); stop reports success only with state Stopped, no live worker and an empty queue (C12_accepted_run_before_ok); a successful stop leaves no waiter registered (C12_waiters_settled); a wait begun on a stopped pool fails at once (C12_wait_after_stopped). Tie: as C11, plus the Spec on the implementation's outputs (state never goes back, nothing accepted after stop, stop ok only when done, no hang).",
+        "note": "Trusted: as C11. stop is exercised with a zero time budget (virtual clock); EventLoop::stop / stop_sync are not covered.",
+        "design_ref": "DESIGN.md §4 C12",
+    },
+    "C13": {
+        "text": "Theorems: a task cancelled while queued is skipped by the worker that takes it - nothing starts, an error result is stored and its waiter registration removed (C13_before_start); requesting a cancel changes nothing but the cancel sets (C13_cancel_frame); skipping changes only that task's result and waiter (C13_skip_frame). Tie: as C11; tasks log when their body starts. Known finding: cancelling a task that is suspended inside its worker leaves its waiter unsettled (and the worker count up).",
+        "note": "Trusted: as C11. The running-task path (signal to the thread that is executing the coroutine, lookup/delivery race) is not exercised: partial.",
+        "design_ref": "DESIGN.md §4 C13",
+    },
 }
